@@ -1,82 +1,14 @@
 package main
 
-// The small translator: go/ast facts about /repo rendered as Lean definitions
-// (lean/AnySyncModel/Generated/*.lean). It accepts a restricted set of shapes only; a shape it
-// does not recognise is emitted with `…ShapeOk := false`, which breaks the Lean obligation
-// `…_shape_ok` and sends the check to its failing-input search.
-
 import (
-	"bytes"
 	"fmt"
-	"go/ast"
-	"go/parser"
-	"go/printer"
-	"go/token"
 	"os"
-	"path/filepath"
-	"strings"
+
+	"verifharness/internal/corr"
 )
 
-type goFile struct {
-	fset *token.FileSet
-	f    *ast.File
-}
-
-func parseGo(path string) (*goFile, error) {
-	fset := token.NewFileSet()
-	f, err := parser.ParseFile(fset, path, nil, 0)
-	if err != nil {
-		return nil, err
-	}
-	return &goFile{fset, f}, nil
-}
-
-func (g *goFile) str(n ast.Node) string {
-	if n == nil || isNilNode(n) {
-		return ""
-	}
-	var b bytes.Buffer
-	printer.Fprint(&b, g.fset, n)
-	return strings.Join(strings.Fields(b.String()), " ")
-}
-
-func isNilNode(n ast.Node) bool {
-	switch v := n.(type) {
-	case ast.Stmt:
-		return v == nil
-	case ast.Expr:
-		return v == nil
-	}
-	return false
-}
-
-func (g *goFile) fn(recv, name string) *ast.FuncDecl {
-	for _, d := range g.f.Decls {
-		fd, ok := d.(*ast.FuncDecl)
-		if !ok || fd.Name.Name != name {
-			continue
-		}
-		if recv == "" && fd.Recv == nil {
-			return fd
-		}
-		if fd.Recv != nil && len(fd.Recv.List) == 1 && strings.TrimPrefix(g.str(fd.Recv.List[0].Type), "*") == recv {
-			return fd
-		}
-	}
-	return nil
-}
-
-func contains(g *goFile, n ast.Node, sub string) bool {
-	return strings.Contains(g.str(n), sub)
-}
-
-func leanBool(b bool) string {
-	if b {
-		return "true"
-	}
-	return "false"
-}
-
+// extract runs every registered extractor: go/ast facts about /repo rendered as Lean definitions
+// (lean/AnySyncModel/Generated/*.lean).
 func extract(repo, out string) error {
 	if out == "" {
 		return fmt.Errorf("-out required")
@@ -84,140 +16,10 @@ func extract(repo, out string) error {
 	if err := os.MkdirAll(out, 0o755); err != nil {
 		return err
 	}
-	if err := extractApp(repo, out); err != nil {
-		return err
-	}
-	return extractMore(repo, out)
-}
-
-func extractApp(repo, out string) error {
-	g, err := parseGo(filepath.Join(repo, "app/app.go"))
-	if err != nil {
-		return err
-	}
-	ok := true
-	closeDesc, csDesc, csOff, initBeforeRun, walks := true, true, 1, true, true
-
-	// App.Close: the loop that calls .Close(
-	if fd := g.fn("App", "Close"); fd != nil {
-		found := false
-		ast.Inspect(fd.Body, func(n ast.Node) bool {
-			switch l := n.(type) {
-			case *ast.ForStmt:
-				if !contains(g, l.Body, ".Close(") {
-					return true
-				}
-				found = true
-				h := g.str(l.Init) + "; " + g.str(l.Cond) + "; " + g.str(l.Post)
-				switch h {
-				case "i := len(app.components) - 1; i >= 0; i--":
-					closeDesc = true
-				case "i := 0; i < len(app.components); i++":
-					closeDesc = false
-				default:
-					ok = false
-				}
-				return false
-			case *ast.RangeStmt:
-				if contains(g, l.Body, ".Close(") {
-					found = true
-					if g.str(l.X) == "app.components" {
-						closeDesc = false
-					} else {
-						ok = false
-					}
-					return false
-				}
-			}
-			return true
-		})
-		if !found {
-			ok = false
+	for name, fn := range corr.Extractors {
+		if err := fn(repo, out); err != nil {
+			return fmt.Errorf("%s: %w", name, err)
 		}
-	} else {
-		ok = false
 	}
-
-	// App.Start: closeServices literal and the two passes
-	if fd := g.fn("App", "Start"); fd != nil {
-		foundCS := false
-		var passes []string
-		for _, st := range fd.Body.List {
-			if as, isAs := st.(*ast.AssignStmt); isAs && len(as.Lhs) == 1 && g.str(as.Lhs[0]) == "closeServices" {
-				if fl, isFl := as.Rhs[0].(*ast.FuncLit); isFl {
-					for _, s2 := range fl.Body.List {
-						if l, isFor := s2.(*ast.ForStmt); isFor {
-							foundCS = true
-							h := g.str(l.Init) + "; " + g.str(l.Cond) + "; " + g.str(l.Post)
-							switch h {
-							case "i := idx; i >= 0; i--":
-								csDesc, csOff = true, 1
-							case "i := idx - 1; i >= 0; i--":
-								csDesc, csOff = true, 0
-							case "i := idx + 1; i >= 0; i--":
-								csDesc, csOff = true, 2
-							case "i := 0; i <= idx; i++":
-								csDesc, csOff = false, 1
-							case "i := 0; i < idx; i++":
-								csDesc, csOff = false, 0
-							default:
-								ok = false
-							}
-						}
-					}
-				}
-			}
-			if rs, isR := st.(*ast.RangeStmt); isR && g.str(rs.X) == "app.components" {
-				switch {
-				case contains(g, rs.Body, ".Init(") && !contains(g, rs.Body, ".Run("):
-					passes = append(passes, "init")
-				case contains(g, rs.Body, ".Run(") && !contains(g, rs.Body, ".Init("):
-					passes = append(passes, "run")
-				default:
-					passes = append(passes, "mixed")
-				}
-			}
-		}
-		if !foundCS {
-			ok = false
-		}
-		switch strings.Join(passes, ",") {
-		case "init,run":
-			initBeforeRun = true
-		default:
-			ok = false
-		}
-	} else {
-		ok = false
-	}
-
-	// App.Component: parent walk
-	if fd := g.fn("App", "Component"); fd != nil {
-		walks = false
-		ast.Inspect(fd.Body, func(n ast.Node) bool {
-			if l, isFor := n.(*ast.ForStmt); isFor && g.str(l.Cond) == "current != nil" {
-				if k := len(l.Body.List); k > 0 && g.str(l.Body.List[k-1]) == "current = current.parent" {
-					walks = true
-				}
-			}
-			return true
-		})
-		if !contains(g, fd.Body, "current := app") {
-			ok = false
-		}
-	} else {
-		ok = false
-	}
-
-	var b strings.Builder
-	b.WriteString("-- GENERATED by `verifharness extract` from /repo/app/app.go — do not edit\n")
-	b.WriteString("namespace AnySync.Generated.App\n")
-	fmt.Fprintf(&b, "/-- every loop shape below was recognised by the extractor -/\ndef shapeOk : Bool := %s\n", leanBool(ok))
-	fmt.Fprintf(&b, "/-- `closeServices`: `for i := idx; i >= 0; i--` -/\ndef closeServicesDescending : Bool := %s\n", leanBool(csDesc))
-	fmt.Fprintf(&b, "/-- the loop covers the first `idx + offset` components -/\ndef closeServicesStartOffset : Nat := %d\n", csOff)
-	fmt.Fprintf(&b, "/-- `Close`: `for i := len(app.components) - 1; i >= 0; i--` -/\ndef closeDescending : Bool := %s\n", leanBool(closeDesc))
-	fmt.Fprintf(&b, "/-- `Start`: a complete Init pass precedes the Run pass -/\ndef startInitBeforeRun : Bool := %s\n", leanBool(initBeforeRun))
-	fmt.Fprintf(&b, "/-- `Component`: `current = current.parent` walk -/\ndef lookupWalksParents : Bool := %s\n", leanBool(walks))
-	b.WriteString("end AnySync.Generated.App\n")
-	return os.WriteFile(filepath.Join(out, "AppShape.lean"), []byte(b.String()), 0o644)
+	return nil
 }
